@@ -196,6 +196,23 @@ func cmdCheck(args []string) int {
 	replayRepo = *repo
 	p := loadFor(*repo, *verif)
 	known := loadKnown(*verif)
+	// property views: `view P func K` replaces K's contract in a run for P and is absent otherwise
+	{
+		var viewIDs []string
+		for id, fc := range p.cs.Funcs {
+			if fc.View != "" {
+				viewIDs = append(viewIDs, id)
+			}
+		}
+		sort.Strings(viewIDs)
+		for _, id := range viewIDs {
+			fc := p.cs.Funcs[id]
+			delete(p.cs.Funcs, id)
+			if fc.View == *prop {
+				p.cs.Funcs[strings.TrimSuffix(id, "@"+fc.View)] = fc
+			}
+		}
+	}
 
 	budget := 8000
 	if *tier == "thorough" {
